@@ -9,10 +9,11 @@ CHECK = {
              "interaction kernel (X0.2.int); V: a Stepper call with the invalid event id max_events "
              "(rejected), reset_state(); W: warm_up() as first letter} on one Stepper, each history "
              "followed by probing events 0,1,2; configuration lattice: track order {none + 6 re-indexing "
-             "orders} x action_times x StatusChecker x slots {1,2,8} x along-step {linear+MSC+fluctuation, "
+             "orders + init_charge (reference: fresh state with init_charge)} x action_times x StatusChecker x slots {1,2,4,8} (4 = tie with the number of primaries, g1 only) x along-step {linear+MSC+fluctuation, "
              "field+MSC+fluctuation} x geometry {g1 box-in-box (single universe), g3 rotated-daughter "
              "universe (two levels)} (quick: timing/checker both off or both on; field+g1 with slots "
-             "1,2,8, the other three (along-step, geometry) pairs with 2 slots); 3 primaries (gamma, e-, e+) per event, with a "
+             "1,2,4,8, linear+g1 with 2,4, the g3 pairs with 2 slots; init_charge on g1 with 2 slots); after histories of length <= 1 "
+             "the probes are followed by events with UniqueEventId != EventId (E0u5, E2u0), each against its own fresh reference; 3 primaries (gamma, e-, e+) per event, with a "
              "field a 4th one: a 0.2 MeV e- in the vacuum world perpendicular to B whose first step is "
              "already a looping step; interaction outcomes are a fixed function of (event, track, step, "
              "particle, energy). Oracle, for every completed event: (1) per-track step history hash, "
